@@ -78,7 +78,7 @@ Proof.
       right. exists q, rs. simpl. auto.
     + destruct a as [[|b] g i|b q i]; simpl in H.
       * unfold group_of in H. simpl in H. destruct (grp_get (sh_groups sh) g) as [rs|] eqn:E; [|discriminate].
-        destruct (nth_error rs i) eqn:N; [|discriminate]. apply nth_error_Some_lt in N || (assert (N' : i < length rs) by (apply nth_error_Some; congruence)).
+        destruct (nth_error rs i) eqn:N; [|discriminate].
         right. left. exists g, rs. split; [exact E|]. right. exists i. split; [apply nth_error_Some; congruence|reflexivity].
       * unfold group_of, scope_groups, block_of in H.
         destruct (nth_error (sh_blocks sh) b) as [bs|] eqn:E; [|discriminate]. simpl in H.
